@@ -257,6 +257,21 @@ func runE2E(sysName string, c *chunkCase, scale int, seed int64, overExisting bo
 	} else if g.Status != 404 {
 		return fmt.Sprintf("rejected chunked upload (%s) left something behind: GET %d, %d bytes", c.Mal, g.Status, len(g.Body))
 	}
+	// ... nor may it show in what is uploaded next: a well-formed stream to another key, read back
+	next := []byte("the payload of the upload that follows the refused one")
+	wire := awsChunked(next, []int{20, len(next)}, true)
+	nr := newReq("PUT", "/"+bucket+"/next")
+	nr.Header.Set("X-Amz-Content-Sha256", "STREAMING-AWS4-HMAC-SHA256-PAYLOAD")
+	nr.Header.Set("X-Amz-Decoded-Content-Length", strconv.Itoa(len(next)))
+	nr.Header.Set("Content-Encoding", "aws-chunked")
+	nr.setBody(wire)
+	if no := x.Serve(nr); no.Status != 200 {
+		return fmt.Sprintf("the well-formed chunked upload after a refused one (%s) was refused: %d %s", c.Mal, no.Status, no.ErrCode())
+	}
+	if ng := x.Serve(newReq("GET", "/"+bucket+"/next")); ng.Status != 200 || !bytes.Equal(ng.Body, next) {
+		return fmt.Sprintf("the upload after a refused chunked upload (%s) is stored as %d bytes, sent %d (first difference at %d)",
+			c.Mal, len(ng.Body), len(next), firstDiff(ng.Body, next))
+	}
 	return ""
 }
 
